@@ -204,9 +204,24 @@ def search(ctx, broken, corr_failures):
                                                      + "; ".join(c["slot"] + " " + c["what"] for c in r["changed"][:3]),
                                        replay={"fn": "accessors", "match": {"obj": r["obj"], "method": r["method"], "D": r["D"], "variant": r.get("variant")},
                                                "key": key})
+    dres = vlib.run_impl("c15_impl", {"fn": "deepcopies"})
+    for r in dres:
+        base = r["obj"].split("[")[0]
+        if r["status"] == "raised":
+            nonrigid = base in ("FreeFormDeformation", "StationaryVelocityFreeFormDeformation", "DisplacementFieldTransform",
+                                "StationaryVelocityFieldTransform", "MultiLevelTransform")
+            key = f"C15:{'NonRigidTransform[Parameter]' if nonrigid and 'graph leaves' in r['exc'] else base}.{r['how']}:raises"
+            found.setdefault(key, Violation(key=key, what=f"{r['how']} of {r['obj']} raises {r['exc']}",
+                                            replay={"fn": "deepcopies", "match": {"obj": r["obj"], "how": r["how"], "D": r["D"]}, "key": key}))
+        elif r["changed"]:
+            key = f"C15:{base}.{r['how']}:not-independent:{r['direction']}"
+            found.setdefault(key, Violation(key=key, what=f"{r['how']} of {r['obj']}: in-place edits ({r['direction']}) reach the other object: "
+                                                         + "; ".join(c["slot"] + " " + c["what"] for c in r["changed"][:3]),
+                                            replay={"fn": "deepcopies", "match": {"obj": r["obj"], "how": r["how"], "D": r["D"], "direction": r["direction"]},
+                                                    "key": key}))
     skipped = sorted({f"{r['obj'].split('[')[0]}.{r['method']}" for r in ares if r["status"] == "no-arguments"})
     ctx.notes.append(f"runtime sweep: {len(fres)} function calls ({len({(r['mod'], r['fn']) for r in fres})} functions, D in {{2,3}}, float32/float64), "
-                     f"{n_calls} accessor / method calls on {len({r['obj'] for r in ares})} object kinds; methods without synthesised arguments: {skipped}")
+                     f"{n_calls} accessor / method calls on {len({r['obj'] for r in ares})} object kinds, {len(dres)} deep-copy independence probes; methods without synthesised arguments: {skipped}")
     return list(found.values())
 
 
@@ -217,7 +232,7 @@ def explains(broken_item, found):
 
 def replay(ctx, data):
     fn = data.get("fn")
-    if fn not in ("functions", "accessors"):
+    if fn not in ("functions", "accessors", "deepcopies"):
         return None
     res = vlib.run_impl("c15_impl", {"fn": fn})
     m = data.get("match", {})
@@ -227,6 +242,8 @@ def replay(ctx, data):
                 return f"{r['fn']}: {r['mutated']}"
             if fn == "accessors" and r.get("changed"):
                 return f"{r['obj']}.{r['method']}: {r['changed'][:3]}"
+            if fn == "deepcopies" and (r.get("changed") or r["status"] == "raised"):
+                return f"{r['how']} of {r['obj']}: {r.get('changed') or r.get('exc')}"
     return None
 
 
